@@ -107,7 +107,7 @@ def fork_job(args):
 
 
 def run(tier: str, seed: int) -> int:
-    run_ = Run("C17", tier, seed)
+    run_ = Run("C17", tier, seed, level="fault_enumeration")
     rnd = random.Random(seed + 17)
     base = []
     pats = [("aa",), ("aba", "bb"), ("ab",), ("aa", "aab")] if tier == "quick" else [tuple(p) for p in sc.PATTERN_SETS_AB[:10]]
